@@ -117,6 +117,9 @@ def expected_content(fs):
         for (p, t, n) in seg.get('active') or []:
             o = ex.obj(p)
             if t == 'daqmx':
+                o['type'] = 'daqmx'
+                for k in range(seg.get('nchunks', 0)):
+                    o['chunks'].append((si, k, n))
                 continue
             if o['type'] is None:
                 o['type'] = t
